@@ -98,6 +98,7 @@ func genCase(rt *rapid.T) tcase {
 		c.FaultSel = rapid.IntRange(0, 1<<20).Draw(rt, "faultSel")
 		c.Run.FailWith = rapid.Bool().Draw(rt, "failWith")
 		c.Run.FailErr = rapid.IntRange(0, len(vk.FaultErrors)-1).Draw(rt, "failErr")
+		c.Run.FailOnce = rapid.Bool().Draw(rt, "failOnce")
 	}
 	c.Run.Src = vk.GenChunks(rt, "src", 140000)
 	c.Run.EOFWith = rapid.Bool().Draw(rt, "eofWith")
@@ -301,7 +302,7 @@ func TestFaultSweepSmall(t *testing.T) {
 					if at >= d.H() {
 						cls = "fault.payload"
 					}
-					sweepOne(t, sec, spec, d, d.all, runSpec{FailAt: at, FailWith: with, FailErr: at + len(src), Src: src}, cls, "unmodified document")
+					sweepOne(t, sec, spec, d, d.all, runSpec{FailAt: at, FailWith: with, FailErr: at + len(src), FailOnce: (at+len(src))%2 == 1, Src: src}, cls, "unmodified document")
 				}
 			}
 		}
@@ -360,7 +361,7 @@ func TestBoundarySweepLarge(t *testing.T) {
 				sweepOne(t, sec, spec, d, m, runSpec{FailAt: -1, Src: [][]int{nil, {refenc.SealedSize}, {4096}}[off%3]}, "flip."+pos, fmt.Sprintf("flip bit %d of byte %d", off%8, off))
 			}
 			if !every || near(off) {
-				sweepOne(t, sec, spec, d, d.all, runSpec{FailAt: off, FailWith: off%2 == 1, FailErr: off / 3, Src: [][]int{nil, {refenc.SealedSize}, {1000}}[off%3]}, "fault."+pos, "unmodified document")
+				sweepOne(t, sec, spec, d, d.all, runSpec{FailAt: off, FailWith: off%2 == 1, FailErr: off / 3, FailOnce: off%5 < 2, Src: [][]int{nil, {refenc.SealedSize}, {1000}}[off%3]}, "fault."+pos, "unmodified document")
 			}
 		}
 	}
